@@ -29,8 +29,20 @@ pub mod vs {
 // assert WITHOUT the implicit assume of kani::assert: the check is made on a forked branch that ends,
 // so that one failing check does not hide the others behind it (every failing role is reported).
 macro_rules! vcheck { ($c:expr, $l:expr) => {{ let c: bool = $c; if kani::any::<bool>() { kani::assert(c, concat!("VP:", $l)); kani::assume(false); } }}; }
-#[cfg(kani)]
+// cover points cost one extra SAT call each (CBMC solves again per satisfied cover; on a 4M-variable formula that is
+// minutes, and it pushed the ring harness over its memory limit). They are compiled in only with `--features covers`
+// (manual runs); vacuity is guarded by the per-property twin harness, whose final check must FAIL.
+#[cfg(all(kani, feature = "covers"))]
 macro_rules! vcover { ($c:expr, $l:expr) => { kani::cover($c, concat!("VC:", $l)) }; }
+#[cfg(all(kani, not(feature = "covers")))]
+macro_rules! vcover { ($c:expr, $l:expr) => { { let _ = &$c; } }; }
+
+/// C16: the two extracted arm functions of a command name (S7), as closures over the complete element vector
+#[cfg(kani)]
+macro_rules! c16arm { ($n:ident) => { (
+    |e: Vec<redis_sim::redis::RespValue>| { let r = redis_sim::redis::verif_arms_sim::$n(&e, String::new()); std::mem::forget(e); r },
+    |e: Vec<redis_sim::redis::RespValueZeroCopy>| { let r = redis_sim::redis::verif_arms_prod::$n(&e, String::new()); std::mem::forget(e); r },
+) }; }
 
 #[cfg(kani)]
 pub mod coll { pub use verif_collections::{HashMap, HashSet}; }
@@ -112,6 +124,21 @@ macro_rules! registry {
         #[kani::stub(tracing_core::event::Event::dispatch, crate::stubs::stub_dispatch)]
         #[kani::stub(parking_lot::raw_mutex::RawMutex::lock_slow, crate::stubs::pl_lock_slow)]
         #[kani::stub(parking_lot::raw_mutex::RawMutex::unlock_slow, crate::stubs::pl_unlock_slow)]
+        pub fn $name() { $body }
+    };
+    (@one $name:ident, $unwind:literal, ascii, $body:expr) => {
+        #[kani::proof]
+        #[kani::unwind($unwind)]
+        #[kani::stub(alloc::fmt::format, crate::stubs::stub_format)]
+        #[kani::stub(core::ptr::align_offset, crate::stubs::no_align_offset)]
+        #[kani::stub(str::to_uppercase, crate::stubs::ascii_upper)]
+        #[kani::stub(core::arch::x86_64::__cpuid_count, crate::stubs::fake_cpuid)]
+        #[kani::stub(tracing_core::callsite::DefaultCallsite::interest, crate::stubs::stub_interest)]
+        #[kani::stub(tracing::__macro_support::__is_enabled, crate::stubs::stub_is_enabled)]
+        #[kani::stub(tracing_core::event::Event::dispatch, crate::stubs::stub_dispatch)]
+        #[kani::stub(parking_lot::raw_mutex::RawMutex::lock_slow, crate::stubs::pl_lock_slow)]
+        #[kani::stub(parking_lot::raw_mutex::RawMutex::unlock_slow, crate::stubs::pl_unlock_slow)]
+        #[kani::stub(alloc::string::String::from_utf8_lossy, crate::stubs::ascii_lossy)]
         pub fn $name() { $body }
     };
     (@one $name:ident, $unwind:literal, ring, $body:expr) => {
